@@ -112,6 +112,7 @@ package modbus
 //@   ensures[C07] err == nil ==> len(res) >= expectedLen || (errIs(lastErr, io.EOF) && faults > old(faults))
 //@   ensures[C07] faults >= old(faults) && streamPos <= streamLen && streamPos >= old(streamPos)
 //@   ensures[C08] err != nil ==> isnil(res)
+//@   ensures[C08.fault] err == nil && reads > old(reads) ==> lastErr == nil || errIs(lastErr, os.ErrDeadlineExceeded) || errIs(lastErr, io.EOF)
 //@   ensures[C08.classify] err != nil ==> dyntype(err) == *ClientError || err == ctxErr
 //@   ensures[C12] dyntype(err) != *packet.ErrorResponseRTU && dyntype(err) != *packet.ErrorResponseTCP
 //@   ensures[C07.progress] err != nil ==> faults > old(faults) || streamPos - old(streamPos) > 260 || (streamPos == old(streamPos) && expectedLen <= 0) || (dyntype(err) == *ClientError && ((tcpClient(c) && dyntype(err.(*ClientError).Err) == *packet.ErrorResponseTCP && streamPos - old(streamPos) == 9 && stream[old(streamPos)+7] & 128 != 0) || (rtuClient(c) && dyntype(err.(*ClientError).Err) == *packet.ErrorResponseRTU && streamPos - old(streamPos) == 5 && stream[old(streamPos)+1] & 128 != 0)))
@@ -269,6 +270,7 @@ package modbus
 //@   ensures[C07] err == nil ==> len(res) >= expectedLen
 //@   ensures[C07] faults >= old(faults) && streamPos <= streamLen && streamPos >= old(streamPos)
 //@   ensures[C08] err != nil ==> isnil(res)
+//@   ensures[C08.fault] err == nil && reads > old(reads) ==> lastErr == nil || errIs(lastErr, os.ErrDeadlineExceeded) || errIs(lastErr, io.EOF)
 //@   ensures[C08.classify] err != nil ==> dyntype(err) == *ClientError || err == ctxErr
 //@   ensures[C12] dyntype(err) != *packet.ErrorResponseRTU && dyntype(err) != *packet.ErrorResponseTCP
 //@   ensures[C07.progress] err != nil ==> faults > old(faults) || streamPos - old(streamPos) > 256 || (streamPos == old(streamPos) && expectedLen <= 0) || (dyntype(err) == *ClientError && dyntype(err.(*ClientError).Err) == *packet.ErrorResponseRTU && streamPos - old(streamPos) == 5 && stream[old(streamPos)+1] & 128 != 0)
